@@ -3,6 +3,7 @@ import Soa.Spec.Vec
 import Soa.Model.IndexRun
 import Soa.Extracted.Generic
 import Soa.Model.Cap
+import Soa.Model.Views
 /-!
 # Scenario interpreter: one operation per line, one observation line per side
 
@@ -391,6 +392,416 @@ def stepCore (cx : Ctx) (w : World) (ws : List String) : StepOut :=
     | _, _, _ => badOp w
   | _ => badOp w
 
+/-! ## views, iterators, sorting, pointer bundles, element references -/
+
+open View in
+/-- result of walking a view path -/
+inductive PathEnd where
+  | win (w : View.Win)
+  | elem (pos : Nat) (opt : Bool)
+  | none
+  | panic
+  | stuck
+
+def tokParts (t : String) : List String := t.splitOn ":"
+def partNat (ps : List String) (i : Nat) : Nat := ((ps.getD i "").toNat?).getD (IdxIR.MAX - 7)
+def partInt (ps : List String) (i : Nat) : Int := ((ps.getD i "").toInt?).getD 0
+
+def resWin (r : View.Res View.Win) : PathEnd :=
+  match r with
+  | .ok w => .win w
+  | .none => .none
+  | .panic => .panic
+  | .stuck => .stuck
+
+/-- walk a path of view operations from window `w`; `useIR` = range indexing through the extracted
+    index layer (model) or by std's rules (specification).  Returns where it ended, whether the
+    view is still mutable, and the tokens left (a trailing `write:…`). -/
+def walkPath (cx : Ctx) (useIR : Bool) : List String → View.Win → Bool → PathEnd × Bool × List String
+  | [], w, m => (.win w, m, [])
+  | t :: rest, w, m =>
+    let ps := tokParts t
+    let a := partNat ps 1
+    let b := partNat ps 2
+    let viaIdx (iv : IdxIR.IV) (getting : Bool) : View.Res View.Win :=
+      if useIR then
+        View.viaIndex cx.prof (toIdxShape cx.shape) (if m then .sliceMut else .slice)
+          (match getting, m with
+           | true, false => .get | true, true => .getMut | false, false => .index | false, true => .indexMut) w iv
+      else View.viaStd getting w iv
+    let cont (r : View.Res View.Win) (m' : Bool) : PathEnd × Bool × List String :=
+      match r with
+      | .ok w' => walkPath cx useIR rest w' m'
+      | .none => (.none, m', rest)
+      | .panic => (.panic, m', rest)
+      | .stuck => (.stuck, m', rest)
+    match ps.headD "" with
+    | "write" => (.win w, m, t :: rest)
+    | "split_at" => cont (View.splitAt w a b) m
+    | "split_first" =>
+      match View.splitFirst w with
+      | .ok (e, r) => if ps.getD 1 "" == "elem" then (.elem e true, m, rest) else walkPath cx useIR rest r m
+      | _ => (.none, m, rest)
+    | "split_last" =>
+      match View.splitLast w with
+      | .ok (e, r) => if ps.getD 1 "" == "elem" then (.elem e true, m, rest) else walkPath cx useIR rest r m
+      | _ => (.none, m, rest)
+    | "range" => cont (viaIdx { form := .range, start := a, end_ := b } false) m
+    | "rangeto" => cont (viaIdx { form := .rangeTo, end_ := a } false) m
+    | "rangefrom" => cont (viaIdx { form := .rangeFrom, start := a } false) m
+    | "incl" => cont (viaIdx { form := .rangeIncl, start := a, end_ := b } false) m
+    | "first" => (match View.first w with | .ok e => (.elem e true, m, rest) | _ => (.none, m, rest))
+    | "last" => (match View.last w with | .ok e => (.elem e true, m, rest) | _ => (.none, m, rest))
+    | "get" =>
+      (match viaIdx { form := .pos, pos := a } true with
+       | .ok w' => (.elem w'.s true, m, rest) | .none => (.none, m, rest) | .panic => (.panic, m, rest) | .stuck => (.stuck, m, rest))
+    | "idx" =>
+      (match viaIdx { form := .pos, pos := a } false with
+       | .ok w' => (.elem w'.s false, m, rest) | .none => (.none, m, rest) | .panic => (.panic, m, rest) | .stuck => (.stuck, m, rest))
+    | "reborrow" => walkPath cx useIR rest w m
+    | "as_ref" | "as_slice" => walkPath cx useIR rest w false
+    | _ => (.stuck, m, rest)
+
+/-- apply a user write `*ref.leaf = fresh(tag)` at parent position `pos`, both sides -/
+def writeBoth (cx : Ctx) (w : World) (r : Nat) (pos leaf tag : Nat) : World × Ev × Ev × List Nat :=
+  let id := tag * 8 + leaf
+  let c := w.regs.getD r cx.shape.empty
+  let rs := w.rows.getD r []
+  let (c', evI, made) := Model.writeLeaf c leaf pos id
+  let (rs', evS) : List Elem × Ev := match rs[pos]? with
+    | some e => (rs.set pos (Spec.setLeafE leaf id e 0).1, { drops := [e.ids.getD leaf 0] })
+    | none => (rs, {})
+  ({ w with regs := setReg w.regs r c', rows := setReg w.rows r rs' }, evI, evS, made)
+
+def lexLe : List Nat → List Nat → Bool
+  | [], _ => true
+  | _ :: _, [] => false
+  | a :: as, b :: bs => if a < b then true else if b < a then false else lexLe as bs
+
+/-- the leaf whose id carries the sort key: the first leaf that is not zero-sized -/
+def Ctx.keyLeaf (cx : Ctx) : Nat := (cx.kinds.findIdx? (· != 'z')).getD 0
+
+/-- views / iterators / sorting / pointers / element references; `none` = not one of these commands -/
+def stepViews (cx : Ctx) (w : World) (ws : List String) : Option StepOut :=
+  let sh := cx.shape
+  let nl := cx.kinds.length
+  let getI (r : Nat) : Cols := w.regs.getD r sh.empty
+  let getS (r : Nat) : List Elem := w.rows.getD r []
+  let colsI (r : Nat) : List (List Nat) := cx.maskCols (getI r).leaves
+  let colsS (r : Nat) : List (List Nat) := cx.maskCols (rowsCols nl (getS r))
+  let rowStr (cols : List (List Nat)) (p : Nat) : String := fmtNats (cols.map (fun l => l.getD p 0))
+  let winStr (cols : List (List Nat)) (v : View.Win) : String := fmtCols (cols.map (fun l => (l.drop v.s).take v.l))
+  let pan : Obs := { status := "panic" }
+  match ws with
+  | op :: r :: mode :: start :: toks =>
+    if op == "view" || op == "viewmut" then
+      match parseReg r with
+      | none => some (badOp w)
+      | some r =>
+        let n := (getI r).firstLen
+        let ns := (getS r).length
+        let sp := tokParts start
+        let mut_ := mode == "mut"
+        let st (n : Nat) : View.Res View.Win := match sp.headD "" with
+          | "as_slice" | "as_mut_slice" => .ok ⟨0, n⟩
+          | "slice" | "slice_mut" => View.vecSlice n (partNat sp 1) (partNat sp 2)
+          | _ => .stuck
+        let run (useIR : Bool) (n : Nat) : PathEnd × Bool × List String := match st n with
+          | .ok v => walkPath cx useIR toks v mut_
+          | .panic => (.panic, mut_, [])
+          | _ => (.stuck, mut_, [])
+        let (eI, mI, restI) := run true n
+        let (eS, _, _) := run false ns
+        -- a trailing write
+        let wr : Option (Nat × Nat × Nat) := match restI with
+          | [t] => let ps := tokParts t
+                   if ps.headD "" == "write" then some (partNat ps 1, partNat ps 2, partNat ps 3) else none
+          | _ => none
+        match wr with
+        | none =>
+          let render (e : PathEnd) (cols : List (List Nat)) : Obs := match e with
+            | .win v => { status := "ok", ret := winStr cols v }
+            | .elem p true => { status := "ok", ret := "some" ++ rowStr cols p }
+            | .elem p false => { status := "ok", ret := rowStr cols p }
+            | .none => { status := "ok", ret := "none" }
+            | .panic => pan
+            | .stuck => { status := "stuck" }
+          some { w, i := render eI (colsI r), s := render eS (colsS r) }
+        | some (pos, leaf, tag) =>
+          if !mI then some (badOp w) else
+          -- where the write lands: an element, or position `pos` of the final window (`get_mut(pos)`)
+          let target (e : PathEnd) : Option (Option Nat) := match e with
+            | .elem p _ => some (some p)
+            | .win v => some (if pos < v.l then some (v.s + pos) else none)
+            | .none => some none
+            | _ => none
+          match target eI, target eS with
+          | some (some p), some (some _) =>
+            let (w', evI, evS, made) := writeBoth cx w r p leaf tag
+            some { w := w', i := { status := "ok", ret := "written", ev := evI }, s := { status := "ok", ret := "written", ev := evS }, madeI := made }
+          | some none, some none =>
+            let retI := match eI with | .none => "none" | _ => "nowrite"
+            let retS := match eS with | .none => "none" | _ => "nowrite"
+            some { w, i := { status := "ok", ret := retI }, s := { status := "ok", ret := retS } }
+          | ti, tsp =>
+            let f (t : Option (Option Nat)) (e : PathEnd) : Obs := match t, e with
+              | _, .panic => pan
+              | some (some _), _ => { status := "ok", ret := "written" }
+              | some none, _ => { status := "ok", ret := "nowrite" }
+              | none, _ => { status := "stuck" }
+            some { w, i := f ti eI, s := f tsp eS }
+    else if op == "ptr" || op == "ptrw" then
+      -- ptr r <from> <const|mut> <steps…> [terminal]
+      match parseReg r with
+      | none => some (badOp w)
+      | some r =>
+        let n := (getI r).firstLen
+        let fp := tokParts mode
+        let base : Option Nat := match fp.headD "" with
+          | "vec" | "slice" | "slicemut" => some 0
+          | "ref" | "refmut" => if partNat fp 1 < n then some (partNat fp 1) else none
+          | _ => none
+        match base with
+        | none => some { w, i := pan, s := pan }
+        | some base =>
+          -- accumulate the element offset and the nulled components until a terminal token
+          let rec go (toks : List String) (p : Int) (nulls : List Nat) : Int × List Nat × List String :=
+            match toks with
+            | [] => (p, nulls, [])
+            | t :: rest =>
+              let ps := tokParts t
+              match ps.headD "" with
+              | "add" | "wadd" => go rest (p + (partNat ps 1 : Nat)) nulls
+              | "sub" | "wsub" => go rest (p - (partNat ps 1 : Nat)) nulls
+              | "offset" | "woffset" => go rest (p + partInt ps 1) nulls
+              | "as_mut_ptr" | "as_ptr" => go rest p nulls
+              | "null" => go rest p (partNat ps 1 :: nulls)
+              | _ => (p, nulls, t :: rest)
+          let (p, nulls, rest) := go toks (base : Int) []
+          let pn := p.toNat
+          let one (cols : List (List Nat)) (len : Nat) (rows? : Option (List Elem)) : Obs × Option (Nat × Nat) :=
+            match rest with
+            | [] => ({ status := "ok", ret := "at" ++ fmtList (cx.kinds.map (fun k => if k == 'z' then "-1" else toString p)) }, none)
+            | t :: _ =>
+              let ps := tokParts t
+              let _ := rows?
+              match ps.headD "" with
+              | "is_null" => ({ status := "ok", ret := toString (!nulls.isEmpty) }, none)
+              | "read" | "read_volatile" | "read_unaligned" =>
+                if p ≥ 0 ∧ pn < len then ({ status := "ok", ret := rowStr cols pn }, none) else ({ status := "ub" }, none)
+              | "as_ref" =>
+                if !nulls.isEmpty then ({ status := "ok", ret := "none" }, none)
+                else if p ≥ 0 ∧ pn < len then ({ status := "ok", ret := "some" ++ rowStr cols pn }, none) else ({ status := "ub" }, none)
+              | "as_mut" =>
+                if !nulls.isEmpty then ({ status := "ok", ret := "none" }, none)
+                else if p ≥ 0 ∧ pn < len then
+                  (if ps.length > 2 then ({ status := "ok", ret := "written" }, some (partNat ps 1, partNat ps 2))
+                   else ({ status := "ok", ret := "some" ++ rowStr cols pn }, none))
+                else ({ status := "ub" }, none)
+              | _ => ({ status := "stuck" }, none)
+          match rest with
+          | t :: _ =>
+            let ps := tokParts t
+            if ["write", "write_volatile", "write_unaligned"].contains (ps.headD "") then
+              -- overwrite slot `p` bitwise: nothing is destroyed by the write itself; the harness took the old
+              -- value out first and destroys it afterwards as a whole struct value
+              let tag := partNat ps 1
+              let e := sh.elem tag
+              if p ≥ 0 ∧ pn < n then
+                let oi := Model.replace cx.drops (getI r) pn e
+                let os := Spec.replace cx.drops (getS r) pn e.rows
+                let oldI := (oi.ret.getD sh.empty)
+                let oldS := os.ret.getD []
+                some { w := { w with regs := setReg w.regs r oi.st, rows := setReg w.rows r os.st },
+                       i := { status := "ok", ret := "written:" ++ cx.fmtElem oldI.flat ++ ":wev=[]", ev := dropWhole cx.drops oldI },
+                       s := { status := "ok", ret := "written:" ++ cx.fmtElem (oldS.map Elem.ids).flatten ++ ":wev=[]", ev := dropRows cx.drops oldS },
+                       madeI := e.flat }
+              else some { w, i := { status := "ub" }, s := { status := "ub" } }
+            else
+              let (oi, wi) := one (colsI r) n none
+              let (os, _) := one (colsS r) (getS r).length none
+              match wi with
+              | some (leaf, tag) =>
+                let (w', evI, evS, made) := writeBoth cx w r pn leaf tag
+                some { w := w', i := { oi with ev := evI }, s := { os with ev := evS }, madeI := made }
+              | none => some { w, i := oi, s := os }
+          | [] =>
+            let (oi, _) := one (colsI r) n none
+            let (os, _) := one (colsS r) (getS r).length none
+            some { w, i := oi, s := os }
+    else none
+  | _ => none
+
+/-- drive an iterator on both sides step by step (`F` next, `B` next_back, `L` len, `H` size_hint);
+    an element yielded by a mutable iterator is written by the test callback -/
+def iterDrive (cx : Ctx) (r : Nat) (writes : Bool) : List Char → View.Win → View.Win → Nat → World → List String → List String → Ev → Ev → List Nat →
+    World × List String × List String × Ev × Ev × List Nat
+  | [], _, _, _, w, outI, outS, evI, evS, made => (w, outI, outS, evI, evS, made)
+  | c :: cs, vI, vS, k, w, outI, outS, evI, evS, made =>
+    let sh := cx.shape
+    let nl := cx.kinds.length
+    let colsI (c : Cols) : List (List Nat) := cx.maskCols c.leaves
+    let colsS (rs : List Elem) : List (List Nat) := cx.maskCols (rowsCols nl rs)
+    let rowStr (cols : List (List Nat)) (p : Nat) : String := fmtNats (cols.map (fun l => l.getD p 0))
+    let c0 := w.regs.getD r sh.empty
+    let r0 := w.rows.getD r []
+    if c == 'L' then iterDrive cx r writes cs vI vS k w (outI ++ [s!"L{vI.l}"]) (outS ++ [s!"L{vS.l}"]) evI evS made
+    else if c == 'H' then iterDrive cx r writes cs vI vS k w (outI ++ [s!"H{vI.l}:{vI.l}"]) (outS ++ [s!"H{vS.l}:{vS.l}"]) evI evS made
+    else
+      let (yI, vI') := if c == 'F' then View.next vI else View.nextBack vI
+      let (yS, vS') := if c == 'F' then View.next vS else View.nextBack vS
+      let tag := String.singleton c
+      match yI, yS with
+      | some pI, some pS =>
+        let sI := tag ++ rowStr (colsI c0) pI
+        let sS := tag ++ rowStr (colsS r0) pS
+        if writes then
+          let leaf := k % nl
+          let (w', eI, eS, md) := writeBoth cx w r pI leaf ((16 + k) % 32)
+          iterDrive cx r writes cs vI' vS' (k + 1) w' (outI ++ [sI]) (outS ++ [sS]) (evI ++ eI) (evS ++ eS) (made ++ md)
+        else iterDrive cx r writes cs vI' vS' (k + 1) w (outI ++ [sI]) (outS ++ [sS]) evI evS made
+      | _, _ =>
+        let f (y : Option Nat) (cols : List (List Nat)) : String := match y with
+          | some p => tag ++ rowStr cols p
+          | none => tag ++ "none"
+        iterDrive cx r writes cs vI' vS' k w (outI ++ [f yI (colsI c0)]) (outS ++ [f yS (colsS r0)]) evI evS made
+
+/-- iterators (`iter`, `itermut`), sorting (`sort`, `apply_index`, `swap`), `roundtrip`, `refs`, `refreplace` -/
+def stepIter (cx : Ctx) (w : World) (ws : List String) : Option StepOut :=
+  let sh := cx.shape
+  let nl := cx.kinds.length
+  let getI (r : Nat) : Cols := w.regs.getD r sh.empty
+  let getS (r : Nat) : List Elem := w.rows.getD r []
+  let colsI (c : Cols) : List (List Nat) := cx.maskCols c.leaves
+  let colsS (rs : List Elem) : List (List Nat) := cx.maskCols (rowsCols nl rs)
+  let rowStr (cols : List (List Nat)) (p : Nat) : String := fmtNats (cols.map (fun l => l.getD p 0))
+  match ws with
+  | ["iter", r, _src, steps] | ["itermut", r, _src, steps] =>
+      match parseReg r with
+      | none => some (badOp w)
+      | some r =>
+        let writes := ws.headD "" == "itermut"
+        let (w', oI, oS, evI, evS, made) := iterDrive cx r writes steps.toList ⟨0, (getI r).firstLen⟩ ⟨0, (getS r).length⟩ 0 w [] [] {} {} []
+        some { w := w', i := { status := "ok", ret := ",".intercalate oI, ev := evI },
+               s := { status := "ok", ret := ",".intercalate oS, ev := evS }, madeI := made }
+  | "sort" :: r :: entry :: rest =>
+    match parseReg r with
+    | none => some (badOp w)
+    | some r =>
+      let modulus := ((kv rest "mod").bind (·.toNat?)).getD 4
+      let rng : Option (Nat × Nat) := (kv rest "range").bind (fun s => match s.splitOn ":" with
+        | [a, b] => (a.toNat?).bind (fun a => (b.toNat?).map (fun b => (a, b)))
+        | _ => none)
+      let rng := if entry.startsWith "t" then none else rng
+      let c := getI r
+      let rs := getS r
+      let n := c.firstLen
+      -- the sub-slice: `as_mut_slice()` then `index_mut(a..b)` through the extracted index layer
+      let winI : View.Res View.Win := match rng with
+        | some (a, b) => View.viaIndex cx.prof (toIdxShape sh) .sliceMut .indexMut ⟨0, n⟩ { form := .range, start := a, end_ := b }
+        | none => .ok ⟨0, n⟩
+      let winS : View.Res View.Win := match rng with
+        | some (a, b) => View.viaStd false ⟨0, rs.length⟩ { form := .range, start := a, end_ := b }
+        | none => .ok ⟨0, rs.length⟩
+      let kl := cx.keyLeaf
+      let natural := entry == "sort"
+      let oI : Obs × Cols := match winI with
+        | .ok v =>
+          let cols := c.leaves
+          let mcols := cx.maskCols cols
+          let key (p : Nat) : Nat := ((cols.getD kl []).getD p 0 / 8) % modulus
+          let row (p : Nat) : List Nat := mcols.map (fun l => l.getD p 0)
+          let le (p q : Nat) : Bool := if natural then lexLe (row p) (row q) else key p ≤ key q
+          -- `permutation.sort_by(…)` on `0..len`, then every field gathered by it
+          let perm := (List.range' v.s v.l).mergeSort le
+          ({ status := "ok" }, View.gatherWin c v perm)
+        | .panic => ({ status := "panic" }, c)
+        | _ => ({ status := "stuck" }, c)
+      let oS : Obs × List Elem := match winS with
+        | .ok v =>
+          let key (e : Elem) : Nat := (e.ids.getD kl 0 / 8) % modulus
+          let mrow (e : Elem) : List Nat := (e.ids.zip cx.kinds).map (fun p => if p.2 == 'z' then 0 else p.1)
+          let le (a b : Elem) : Bool := if natural then lexLe (mrow a) (mrow b) else key a ≤ key b
+          let seg := (rs.drop v.s).take v.l
+          ({ status := "ok" }, rs.take v.s ++ seg.mergeSort le ++ rs.drop (v.s + v.l))
+        | .panic => ({ status := "panic" }, rs)
+        | _ => ({ status := "stuck" }, rs)
+      some { w := { w with regs := setReg w.regs r oI.2, rows := setReg w.rows r oS.2 }, i := oI.1, s := oS.1 }
+  | ["apply_index", r, _via, idx] =>
+    match parseReg r, parseNats idx with
+    | some r, some p =>
+      let c := getI r
+      let rs := getS r
+      let n := c.firstLen
+      -- validated up front (length, permutation) in every profile; then `new[i] = old[p[i]]` in every field
+      let okI := View.isPerm p n
+      let okS := View.isPerm p rs.length
+      let c' := if okI then View.gatherWin c ⟨0, n⟩ p else c
+      let rs' := if okS then p.filterMap (rs[·]?) else rs
+      some { w := { w with regs := setReg w.regs r c', rows := setReg w.rows r rs' },
+             i := { status := if okI then "ok" else "panic" }, s := { status := if okS then "ok" else "panic" } }
+    | _, _ => some (badOp w)
+  | ["swap", r, a, b] =>
+    match parseReg r, a.toNat?, b.toNat? with
+    | some r, some a, some b =>
+      let c := getI r
+      let rs := getS r
+      let ri := c.apply2 (swapOp a b) (c.const [])
+      let si := (swapOp a b).run rs []
+      some { w := { w with regs := setReg w.regs r ri.st, rows := setReg w.rows r ((si.map (·.1)).getD rs) },
+             i := { status := if ri.panicked then "panic" else "ok" }, s := { status := if si.isNone then "panic" else "ok" } }
+    | _, _, _ => some (badOp w)
+  | ["roundtrip", r, kind] =>
+    match parseReg r with
+    | some r =>
+      if kind == "vec" then some { w, i := { status := "ok", ret := "rebuilt" }, s := { status := "ok", ret := "rebuilt" } }
+      else some { w, i := { status := "ok", ret := fmtCols (colsI (getI r)) }, s := { status := "ok", ret := fmtCols (colsS (getS r)) } }
+    | none => some (badOp w)
+  | "refs" :: r :: what :: args =>
+    match parseReg r with
+    | none => some (badOp w)
+    | some r =>
+      let a (i : Nat) : Nat := ((args.getD i "").toNat?).getD 0
+      if what == "value_as_ref" then
+        let e := sh.elem (a 0)
+        let s := cx.fmtElem e.flat
+        some { w, i := { status := "ok", ret := s ++ "/" ++ s, ev := dropWhole cx.drops e },
+               s := { status := "ok", ret := s ++ "/" ++ s, ev := dropRows cx.drops e.rows }, madeI := e.flat }
+      else if what == "value_as_mut" then
+        let e := sh.elem (a 0)
+        let leaf := a 1
+        let id := a 2 * 8 + leaf
+        let (e', ev, made) := Model.writeLeaf e leaf 0 id
+        let s := cx.fmtElem e'.flat
+        some { w, i := { status := "ok", ret := s, ev := ev ++ dropWhole cx.drops e' },
+               s := { status := "ok", ret := s, ev := ev ++ dropRows cx.drops e'.rows }, madeI := e.flat ++ made }
+      else
+        -- to_owned / From conversions of the element reference at position i: clone every field, in order
+        let i := a 0
+        let c := getI r
+        let rs := getS r
+        let oI : Obs := if i < c.firstLen then
+            let ids := View.rowIds c i
+            let first := ids.headD 0
+            { status := "ok", ret := cx.fmtElem ids,
+              ev := { clones := ids, drops := ids, dropT := if cx.drops then [first] else [] } }
+          else { status := "panic" }
+        let oS : Obs := match rs[i]? with
+          | some e => { status := "ok", ret := cx.fmtElem e.ids,
+                        ev := { clones := e.ids, drops := e.ids, dropT := if cx.drops then [e.firstId] else [] } }
+          | none => { status := "panic" }
+        some { w, i := oI, s := oS }
+  | ["refreplace", r, i, t] =>
+    match parseReg r, i.toNat?, t.toNat? with
+    | some r, some i, some t =>
+      let e := sh.elem t
+      let oi := Model.replace cx.drops (getI r) i e
+      let os := Spec.replace cx.drops (getS r) i e.rows
+      some { w := { w with regs := setReg w.regs r oi.st, rows := setReg w.rows r os.st },
+             i := cx.obsElemI oi false, s := cx.obsElemS os false, madeI := e.flat }
+    | _, _, _ => some (badOp w)
+  | _ => none
+
 def parseBound (s : String) : Option Bounds.Bound :=
   if s == "unb" then some .unb else
   match s.splitOn ":" with
@@ -426,6 +837,12 @@ def posAccess (cx : Ctx) (w : World) (r : Nat) (k : IdxIR.Kind) (m : IdxIR.M) (i
     `first`/`last` are the provided `get(0)` / `get(len.saturating_sub(1))`; `slice`/`slice_mut`
     run the extracted `RangeBounds` conversion. -/
 def step (cx : Ctx) (w : World) (ws : List String) : StepOut :=
+  match stepViews cx w ws with
+  | some o => o
+  | none =>
+  match stepIter cx w ws with
+  | some o => o
+  | none =>
   match ws with
   | ["tnew", r] => stepCore cx w ["new", r]
   | ["tlen", r, _kind] =>
@@ -533,6 +950,7 @@ def capUpdate (cx : Ctx) (w w' : World) (ws : List String) (ok : Bool) : List Ca
     let cs := keep (reg 1)
     set cs (reg 3) { (Cap.St.new cx.kinds (lenOf w' (reg 3))) with len := lenOf w' (reg 3) }
   | "to_vec" => set w.caps (reg 2) { (Cap.St.new cx.kinds (lenOf w' (reg 2))) with len := lenOf w' (reg 2) }
+  | "roundtrip" => if ws.getD 2 "" == "vec" then set w.caps (reg 1) (get (reg 1)).shrink else w.caps
   | "reserve" => set w.caps (reg 1) ((get (reg 1)).reserve (num 2))
   | "reserve_exact" => set w.caps (reg 1) ((get (reg 1)).reserveExact (num 2))
   | "shrink_to_fit" => set w.caps (reg 1) (get (reg 1)).shrink
